@@ -41,6 +41,10 @@ THEOREMS = [
     "IrVerif.Scope.C03_pure_ext",
     "IrVerif.Scope.C03_pure_sites",
     "IrVerif.Scope.C03_pure_frame",
+    "IrVerif.Scope.C03_roundtrip_ext_graph",
+    "IrVerif.Scope.C03_roundtrip_ext_devices",
+    "IrVerif.Scope.C03_roundtrip_ext_partial",
+    "IrVerif.Scope.C03_ext_certificate_decidable",
 ]
 ASSUMPTIONS = [
     "value-info content and tensor payloads are opaque tokens in the model; non-graph node attributes are compared by "
@@ -832,6 +836,16 @@ def diff_ext(part, out: dict, case, model, p1, err, m2, wf=False) -> None:
     part.count("ext_cases")
     if wf:
         part.count("ext_cases_with_functions")
+    if "reloadable_ext" in out:
+        # hypothesis ReloadableE of C03_roundtrip_ext_partial (core part = hypothesis Reloadable of
+        # C03_roundtrip_reloadable), evaluated by the decision procedure of Model/ScopeCert.lean on the IR model
+        part.count(f"hyp_reloadable_ext={bool(out['reloadable_ext'])}")
+        if out["reloadable_ext"] and out.get("ser_ok") and "reload_fixpoint" in out:
+            part.count(f"ext_reload_fixpoint={bool(out['reload_fixpoint'])}")
+            if not out["reload_fixpoint"]:
+                part.disagree("extended model: hypothesis ReloadableE holds but the reloaded model does not serialize to "
+                              "the same proto (contradicts C03_roundtrip_ext_partial: driver / checker defect)",
+                              case, out.get("p"), None)
     func_devs = (not wf) and any(n.device_configurations for f in model.functions.values() for n in f.graph.all_nodes())
     if p1 is None:
         r = sc.root_cause(err)
